@@ -1065,6 +1065,224 @@ impl Exec {
                 .data();
                 (ac::MarginfiGroupConfigure { marginfi_group: self.k(group), admin: signer }.to_account_metas(None), data)
             }
+            // ------------------------------------------------------------------ Kamino (stand-in venue, see venue.rs)
+            "add_bank_kamino" => {
+                let group = sreq(a, "group")?;
+                let bank = sreq(a, "bank")?;
+                let rname = sreq(a, "reserve")?.to_string();
+                let ri = self.env.reserves.get(&rname).ok_or("no reserve")?.clone();
+                let mint_name = s(a, "mint").map(|x| x.to_string()).unwrap_or(ri.mint_name.clone());
+                let mint = self.env.mints.get(&mint_name).ok_or("no mint")?.clone();
+                let g = self.group(group)?;
+                let admin = self.admin_signer(a, g.admin);
+                let payer = self.env.wallet("payer");
+                signers.extend([admin, payer]);
+                let gk = self.k(group);
+                let sd = u64o(a, "seed").unwrap_or(0);
+                let bk = Pubkey::find_program_address(&[gk.as_ref(), mint.key.as_ref(), &sd.to_le_bytes()], &marginfi::ID).0;
+                self.env.names.reg(bank, bk);
+                for (nm, seed_s) in [
+                    ("liq", tc::LIQUIDITY_VAULT_SEED),
+                    ("ins", tc::INSURANCE_VAULT_SEED),
+                    ("fee", tc::FEE_VAULT_SEED),
+                    ("liq_auth", tc::LIQUIDITY_VAULT_AUTHORITY_SEED),
+                    ("ins_auth", tc::INSURANCE_VAULT_AUTHORITY_SEED),
+                    ("fee_auth", tc::FEE_VAULT_AUTHORITY_SEED),
+                ] {
+                    self.env.names.reg(&format!("{}.{}", bank, nm), pda(seed_s, &bk));
+                }
+                let lva = pda(tc::LIQUIDITY_VAULT_AUTHORITY_SEED, &bk);
+                let reserve_key = s(a, "reserve_acct").map(|n| self.k(n)).unwrap_or(ri.reserve);
+                let market = s(a, "market").map(|n| self.k(n)).unwrap_or(ri.market);
+                let obligation = Pubkey::find_program_address(
+                    &[&[0u8], &[0u8], lva.as_ref(), market.as_ref(), system_program::ID.as_ref(), system_program::ID.as_ref()],
+                    &marginfi::constants::KAMINO_PROGRAM_ID,
+                )
+                .0;
+                let obligation = s(a, "obligation").map(|n| self.k(n)).unwrap_or(obligation);
+                self.env.names.reg(&format!("{}.obl", bank), obligation);
+                let oracle = self.k(s(a, "oracle").unwrap_or("none"));
+                let cfg = a.get("cfg").cloned().unwrap_or(json!({}));
+                let setup = match u64o(a, "setup").unwrap_or(6) {
+                    7 => OracleSetup::KaminoSwitchboardPull,
+                    3 => OracleSetup::PythPushOracle,
+                    _ => OracleSetup::KaminoPythPush,
+                };
+                let bank_config = marginfi::state::kamino::KaminoConfigCompact {
+                    oracle,
+                    asset_weight_init: fxd(&cfg, "aw_init", I80F48::from_num(0.8)),
+                    asset_weight_maint: fxd(&cfg, "aw_maint", I80F48::from_num(0.9)),
+                    deposit_limit: u64o(&cfg, "deposit_limit").unwrap_or(u64::MAX),
+                    oracle_setup: setup,
+                    operational_state: op_state(u64o(&cfg, "op_state").unwrap_or(1)),
+                    risk_tier: risk_tier(u64o(&cfg, "risk_tier").unwrap_or(0)),
+                    config_flags: 1,
+                    total_asset_value_init_limit: u64o(&cfg, "init_limit").unwrap_or(0),
+                    oracle_max_age: u64o(&cfg, "oracle_max_age").unwrap_or(100) as u16,
+                    oracle_max_confidence: u64o(&cfg, "oracle_max_conf").unwrap_or(0) as u32,
+                };
+                let mut m = ac::LendingPoolAddBankKamino {
+                    group: gk,
+                    admin,
+                    fee_payer: payer,
+                    bank_mint: mint.key,
+                    bank: bk,
+                    integration_acc_1: reserve_key,
+                    integration_acc_2: obligation,
+                    liquidity_vault_authority: lva,
+                    liquidity_vault: pda(tc::LIQUIDITY_VAULT_SEED, &bk),
+                    insurance_vault_authority: pda(tc::INSURANCE_VAULT_AUTHORITY_SEED, &bk),
+                    insurance_vault: pda(tc::INSURANCE_VAULT_SEED, &bk),
+                    fee_vault_authority: pda(tc::FEE_VAULT_AUTHORITY_SEED, &bk),
+                    fee_vault: pda(tc::FEE_VAULT_SEED, &bk),
+                    token_program: mint.program,
+                    system_program: system_program::ID,
+                }
+                .to_account_metas(None);
+                m.push(AccountMeta::new_readonly(oracle, false));
+                m.push(AccountMeta::new_readonly(reserve_key, false));
+                (m, ix::LendingPoolAddBankKamino { bank_config, bank_seed: sd }.data())
+            }
+            "kamino_init_obligation" | "kamino_deposit" | "kamino_withdraw" => {
+                let bank = sreq(a, "bank")?;
+                let b = self.bank(bank)?;
+                let bk = self.k(bank);
+                let rname = self.env.names.name(&b.integration_acc_1);
+                let ri = self.env.reserves.get(&rname).ok_or("bank has no known reserve")?.clone();
+                let mint = self.env.mint_by_key(&b.mint).cloned().ok_or("no mint")?;
+                let mint_name = self.env.names.name(&mint.key);
+                let lva = pda(tc::LIQUIDITY_VAULT_AUTHORITY_SEED, &bk);
+                let cmint = self.k(&format!("{}.cmint", rname));
+                let csupply = self.k(&format!("{}.csupply", rname));
+                let umeta = self.k(&format!("{}.umeta", rname));
+                let kamino = marginfi::constants::KAMINO_PROGRAM_ID;
+                let farms = marginfi::constants::FARMS_PROGRAM_ID;
+                let sysixs = solana_program::sysvar::instructions::ID;
+                // substitutable venue accounts
+                let reserve = s(a, "reserve_acct").map(|n| self.k(n)).unwrap_or(b.integration_acc_1);
+                let obligation = s(a, "obligation").map(|n| self.k(n)).unwrap_or(b.integration_acc_2);
+                let supply_vault = s(a, "supply_vault").map(|n| self.k(n)).unwrap_or(ri.supply_vault);
+                let amount = u64f(a, "amount")?;
+                if op == "kamino_init_obligation" {
+                    let payer_name = s(a, "signer").unwrap_or("payer").to_string();
+                    let payer = self.env.wallet(&payer_name);
+                    signers.push(payer);
+                    let src = self.user_tok(&payer_name, &mint_name);
+                    (
+                        ac::KaminoInitObligation {
+                            fee_payer: payer,
+                            bank: bk,
+                            signer_token_account: src,
+                            liquidity_vault_authority: lva,
+                            liquidity_vault: b.liquidity_vault,
+                            integration_acc_2: obligation,
+                            user_metadata: umeta,
+                            lending_market: ri.market,
+                            lending_market_authority: ri.lma,
+                            integration_acc_1: reserve,
+                            mint: mint.key,
+                            reserve_liquidity_supply: supply_vault,
+                            reserve_collateral_mint: cmint,
+                            reserve_destination_deposit_collateral: csupply,
+                            pyth_oracle: None,
+                            switchboard_price_oracle: None,
+                            switchboard_twap_oracle: None,
+                            scope_prices: None,
+                            obligation_farm_user_state: None,
+                            reserve_farm_state: None,
+                            kamino_program: kamino,
+                            farms_program: farms,
+                            collateral_token_program: spl_token::ID,
+                            liquidity_token_program: mint.program,
+                            instruction_sysvar_account: sysixs,
+                            rent: solana_program::sysvar::rent::ID,
+                            system_program: system_program::ID,
+                        }
+                        .to_account_metas(None),
+                        ix::KaminoInitObligation { amount }.data(),
+                    )
+                } else {
+                    let acct = sreq(a, "acct")?;
+                    let auth = self.authority_of(acct, a)?;
+                    let auth_name = self.env.names.name(&auth);
+                    signers.push(auth);
+                    let tok = match s(a, if op == "kamino_deposit" { "src" } else { "dst" }) {
+                        Some(n) => self.k(n),
+                        None => self.user_tok(&auth_name, &mint_name),
+                    };
+                    if op == "kamino_deposit" {
+                        let m = ac::KaminoDeposit {
+                            group: b.group,
+                            marginfi_account: self.k(acct),
+                            authority: auth,
+                            bank: bk,
+                            signer_token_account: tok,
+                            liquidity_vault_authority: lva,
+                            liquidity_vault: b.liquidity_vault,
+                            integration_acc_2: obligation,
+                            lending_market: ri.market,
+                            lending_market_authority: ri.lma,
+                            integration_acc_1: reserve,
+                            mint: mint.key,
+                            reserve_liquidity_supply: supply_vault,
+                            reserve_collateral_mint: cmint,
+                            reserve_destination_deposit_collateral: csupply,
+                            obligation_farm_user_state: None,
+                            reserve_farm_state: None,
+                            kamino_program: kamino,
+                            farms_program: farms,
+                            collateral_token_program: spl_token::ID,
+                            liquidity_token_program: mint.program,
+                            instruction_sysvar_account: sysixs,
+                        }
+                        .to_account_metas(None);
+                        ctx.add.entry(acct.into()).or_default().insert(bk);
+                        (m, ix::KaminoDeposit { amount }.data())
+                    } else {
+                        let all = boolo(a, "all");
+                        let mut m = ac::KaminoWithdraw {
+                            group: b.group,
+                            marginfi_account: self.k(acct),
+                            authority: auth,
+                            bank: bk,
+                            destination_token_account: tok,
+                            liquidity_vault_authority: lva,
+                            liquidity_vault: b.liquidity_vault,
+                            integration_acc_2: obligation,
+                            lending_market: ri.market,
+                            lending_market_authority: ri.lma,
+                            integration_acc_1: reserve,
+                            reserve_liquidity_mint: mint.key,
+                            reserve_liquidity_supply: supply_vault,
+                            reserve_collateral_mint: cmint,
+                            reserve_source_collateral: csupply,
+                            obligation_farm_user_state: None,
+                            reserve_farm_state: None,
+                            kamino_program: kamino,
+                            farms_program: farms,
+                            collateral_token_program: spl_token::ID,
+                            liquidity_token_program: mint.program,
+                            instruction_sysvar_account: sysixs,
+                        }
+                        .to_account_metas(None);
+                        let rm: Vec<Pubkey> = if all == Some(true) { vec![bk] } else { vec![] };
+                        m.extend(self.risk_metas(acct, &[], &rm, ctx, a)?);
+                        if all == Some(true) {
+                            ctx.rm.entry(acct.into()).or_default().insert(bk);
+                        }
+                        (m, ix::KaminoWithdraw { amount, withdraw_all: all }.data())
+                    }
+                }
+            }
+            "kamino_refresh" => {
+                // the venue's own refresh_reserve as a top-level instruction (users bundle it before marginfi instructions)
+                let rname = sreq(a, "reserve")?.to_string();
+                let ri = self.env.reserves.get(&rname).ok_or("no reserve")?.clone();
+                let mut data = solana_program::hash::hash(b"global:refresh_reserve").to_bytes()[..8].to_vec();
+                data.extend_from_slice(&[]);
+                let m = vec![AccountMeta::new(ri.reserve, false), AccountMeta::new_readonly(ri.market, false)];
+                return Ok((Instruction { program_id: marginfi::constants::KAMINO_PROGRAM_ID, accounts: m, data }, vec![]));
+            }
             "init_staked_settings" | "edit_staked_settings" => {
                 let group = sreq(a, "group")?;
                 let g = self.group(group)?;
@@ -1532,6 +1750,41 @@ impl Exec {
                     self.env.world.clock.unix_timestamp = t as i64;
                 }
             }
+            "add_kamino_reserve" => {
+                let name = s(a, "reserve").unwrap_or("KR1").to_string();
+                let mint = s(a, "mint").unwrap_or("M1").to_string();
+                let market = s(a, "market").unwrap_or("KM1").to_string();
+                self.env.add_kamino_reserve(&name, &mint, &market, u64o(a, "avail").unwrap_or(0), u64o(a, "supply").unwrap_or(0), u64o(a, "borrowed").unwrap_or(0));
+            }
+            "set_kamino_reserve" => {
+                // environment move: interest accrued in the venue (borrowed grows), fees, staleness
+                let name = s(a, "reserve").unwrap_or("KR1").to_string();
+                let bor = u64o(a, "borrowed");
+                let fees = [a.get("protocol_sf").and_then(parse_i128), a.get("referrer_sf").and_then(parse_i128), a.get("pending_sf").and_then(parse_i128)];
+                let slot = u64o(a, "slot");
+                let refresh = boolo(a, "refresh") == Some(true);
+                let now_slot = self.env.world.clock.slot;
+                self.env.set_kamino_reserve(&name, &|r| {
+                    if let Some(b) = bor {
+                        r.borrowed_amount_sf = ((b as u128) << 60).to_le_bytes();
+                    }
+                    if let Some(x) = fees[0] {
+                        r.accumulated_protocol_fees_sf = (x as u128).to_le_bytes();
+                    }
+                    if let Some(x) = fees[1] {
+                        r.accumulated_referrer_fees_sf = (x as u128).to_le_bytes();
+                    }
+                    if let Some(x) = fees[2] {
+                        r.pending_referrer_fees_sf = (x as u128).to_le_bytes();
+                    }
+                    if let Some(sl) = slot {
+                        r.slot = sl;
+                    }
+                    if refresh {
+                        r.slot = now_slot;
+                    }
+                });
+            }
             "add_stake_pool" => {
                 let pool = s(a, "pool").unwrap_or("SP1").to_string();
                 let mint = s(a, "mint").unwrap_or("LST1").to_string();
@@ -1630,7 +1883,16 @@ impl Exec {
                 Err(e) => return Err((-3000, format!("build:{}", e), i as i64)),
             }
         }
+        let dbg = std::env::var("HX_LOGS").is_ok();
+        if dbg {
+            crate::rt::set_capture_logs(true);
+        }
         let r = self.env.world.exec_tx(&ixs, &signers);
+        if dbg {
+            for l in crate::rt::take_logs() {
+                eprintln!("LOG {}", l);
+            }
+        }
         match r.err() {
             None => Ok(()),
             Some(e) => {
